@@ -37,23 +37,35 @@ theorem relMapLoop_enc (ms : List (Nat × Nat)) (pre rest : Bytes) (off : Nat) (
     rw [this]
     rfl
 
-theorem encRelMapRaw_length (magic count : Nat) (m : RelMap) (h : m.WF) : (encRelMapRaw magic count m).length = 512 := by
-  obtain ⟨h1, h2, _, h4, _⟩ := h
-  simp [-List.length_flatMap, encRelMapRaw, flatMap_encMapping_length, h2, h4, relmapMax] at *
-  omega
-
 theorem toSigned32_small (n : Nat) (h : n < 2 ^ 31) : toSigned 32 n = (n : Int) := by
   unfold toSigned
   rw [if_pos (by simpa using h)]
 
-/-- ParseRelMapFile on an encoded map followed by anything -/
-theorem parseRelMapFile_enc (m : RelMap) (h : m.WF) (tail : Bytes) :
+/-- the length of an encoding with `mx` slots and `padLen` padding bytes -/
+theorem encRelMapRaw_length_core (mx padLen magic count : Nat) (m : RelMap) (h1 : m.mappings.length ≤ mx)
+    (h2 : m.unused.length = 8 * (mx - m.mappings.length)) (h4 : m.pad.length = padLen) :
+    (encRelMapRaw magic count m).length = 8 + 8 * mx + 4 + padLen := by
+  simp [-List.length_flatMap, encRelMapRaw, flatMap_encMapping_length, h2, h4]
+  omega
+
+theorem encRelMapRaw_length (magic count : Nat) (m : RelMap) (h : m.WF) : (encRelMapRaw magic count m).length = 512 := by
+  obtain ⟨h1, h2, _, h4, _⟩ := h
+  rw [encRelMapRaw_length_core relmapMax 4 magic count m h1 h2 h4]; rfl
+
+theorem encRelMapRaw_length16 (magic count : Nat) (m : RelMap) (h : m.WF16) : (encRelMapRaw magic count m).length = 524 := by
+  obtain ⟨h1, h2, _, h4, _⟩ := h
+  rw [encRelMapRaw_length_core relmapMax16 0 magic count m h1 h2 h4]; rfl
+
+/-- ParseRelMapFile on an encoded map with `mx` slots followed by `tail`, when the file size selects `mx` -/
+theorem parseRelMapFile_enc_core (mx padLen : Nat) (m : RelMap) (h1 : m.mappings.length ≤ mx)
+    (h2 : m.unused.length = 8 * (mx - m.mappings.length)) (h3 : m.crc < 2 ^ 32) (h4 : m.pad.length = padLen)
+    (h5 : ∀ e ∈ m.mappings, e.1 < 2 ^ 32 ∧ e.2 < 2 ^ 32) (tail : Bytes) (hmx : 62 ≤ mx ∧ mx ≤ 64)
+    (hsz : 512 ≤ 8 + 8 * mx + 4 + padLen)
+    (hsel : (if 8 + 8 * mx + 4 + padLen + tail.length = 524 then 64 else 62) = mx) :
     Model.parseRelMapFile (encRelMap m ++ tail) =
       .ok (some { magic := relmapMagic, numMappings := m.mappings.length, mappings := m.mappings.map toMapping, crc := m.crc }) := by
-  have hlen := encRelMapRaw_length relmapMagic m.mappings.length m h
-  obtain ⟨h1, h2, h3, h4, h5⟩ := h
-  unfold relmapMax at h1 h2
-  have hl : (encRelMap m ++ tail).length = 512 + tail.length := by simp [encRelMap, hlen]
+  have hlen := encRelMapRaw_length_core mx padLen relmapMagic m.mappings.length m h1 h2 h4
+  have hl : (encRelMap m ++ tail).length = 8 + 8 * mx + 4 + padLen + tail.length := by simp [encRelMap, hlen]
   unfold Model.parseRelMapFile
   rw [if_neg (by omega)]
   simp (disch := omega) only [uN_ok, ok_bind, pure_eq_ok]
@@ -66,9 +78,9 @@ theorem parseRelMapFile_enc (m : RelMap) (h : m.WF) (tail : Bytes) :
     rw [e]
     have := rdAt_append' 4 m.mappings.length 4 (le 4 relmapMagic) (m.mappings.flatMap encMapping ++ (m.unused ++ (le 4 m.crc ++ (m.pad ++ tail)))) (by simp) (by omega)
     simpa [rdAt] using this
-  have r504 : rd 4 (List.drop 504 (encRelMap m ++ tail)) = m.crc := by
+  have rcrc : rd 4 (List.drop (8 + mx * 8) (encRelMap m ++ tail)) = m.crc := by
     rw [e]
-    have := rdAt_append' 4 m.crc 504 (le 4 relmapMagic ++ (le 4 m.mappings.length ++ (m.mappings.flatMap encMapping ++ m.unused)))
+    have := rdAt_append' 4 m.crc (8 + mx * 8) (le 4 relmapMagic ++ (le 4 m.mappings.length ++ (m.mappings.flatMap encMapping ++ m.unused)))
       (m.pad ++ tail) (by simp [-List.length_flatMap, flatMap_encMapping_length, h2]; omega) h3
     simpa [rdAt, List.append_assoc] using this
   have hloop : Model.relMapLoop (encRelMap m ++ tail) m.mappings.length 8 = .ok (m.mappings.map toMapping) := by
@@ -76,26 +88,49 @@ theorem parseRelMapFile_enc (m : RelMap) (h : m.WF) (tail : Bytes) :
     have := relMapLoop_enc m.mappings (le 4 relmapMagic ++ le 4 m.mappings.length) (m.unused ++ (le 4 m.crc ++ (m.pad ++ tail))) 8
       (by simp) h5
     simpa [List.append_assoc] using this
-  rw [r0, r4, r504]
+  rw [r0, r4]
   rw [if_neg (by simp [relmapMagic]), toSigned32_small _ (by omega)]
+  rw [hl, hsel]
   rw [if_neg (by omega)]
   simp only [Int.toNat_natCast, hloop, ok_bind]
   rw [if_pos (by omega)]
-  rfl
+  simp only [ok_bind]
+  rw [rcrc]
 
-/-- rejection, for every byte string: too short, wrong magic or a count outside 0..62 give the error result -/
+/-- ParseRelMapFile on an encoded PostgreSQL 12–15 map followed by anything that does not make the file 524 bytes long -/
+theorem parseRelMapFile_enc (m : RelMap) (h : m.WF) (tail : Bytes) (ht : tail.length ≠ 12) :
+    Model.parseRelMapFile (encRelMap m ++ tail) =
+      .ok (some { magic := relmapMagic, numMappings := m.mappings.length, mappings := m.mappings.map toMapping, crc := m.crc }) := by
+  obtain ⟨h1, h2, h3, h4, h5⟩ := h
+  exact parseRelMapFile_enc_core relmapMax 4 m h1 h2 h3 h4 h5 tail (by decide) (by decide)
+    (by unfold relmapMax; rw [if_neg (by omega)])
+
+/-- ParseRelMapFile on an encoded PostgreSQL 16 map (exactly 524 bytes) -/
+theorem parseRelMapFile_enc16 (m : RelMap) (h : m.WF16) :
+    Model.parseRelMapFile (encRelMap m) =
+      .ok (some { magic := relmapMagic, numMappings := m.mappings.length, mappings := m.mappings.map toMapping, crc := m.crc }) := by
+  obtain ⟨h1, h2, h3, h4, h5⟩ := h
+  have := parseRelMapFile_enc_core relmapMax16 0 m h1 h2 h3 h4 h5 [] (by decide) (by decide) (by unfold relmapMax16; rfl)
+  simpa using this
+
+/-- the largest count ParseRelMapFile accepts in a file of `n` bytes: 64 in a 524-byte file (PostgreSQL 16), 62 otherwise -/
+def maxCountFor (n : Nat) : Nat := if n = 524 then 64 else 62
+
+/-- rejection, for every byte string: too short, wrong magic or a count outside 0..max give the error result -/
 theorem parseRelMapFile_reject (bs : Bytes)
-    (h : bs.length < 512 ∨ rdAt 4 0 bs ≠ 0x592717 ∨ toSigned 32 (rdAt 4 4 bs) < 0 ∨ toSigned 32 (rdAt 4 4 bs) > 62) :
+    (h : bs.length < 512 ∨ rdAt 4 0 bs ≠ 0x592717 ∨ toSigned 32 (rdAt 4 4 bs) < 0 ∨
+      toSigned 32 (rdAt 4 4 bs) > maxCountFor bs.length) :
     Model.parseRelMapFile bs = .ok none := by
   unfold Model.parseRelMapFile
   by_cases hl : bs.length < 512
   · simp [hl]
   · simp (disch := omega) only [hl, if_false, uN_ok, ok_bind, pure_eq_ok]
-    unfold rdAt at h
+    unfold rdAt maxCountFor at h
     by_cases hm : rd 4 (List.drop 0 bs) ≠ 0x592717
     · rw [if_pos hm]
     · rw [if_neg hm]
-      have : toSigned 32 (rd 4 (List.drop 4 bs)) < 0 ∨ toSigned 32 (rd 4 (List.drop 4 bs)) > 62 := by
+      have : toSigned 32 (rd 4 (List.drop 4 bs)) < 0 ∨
+          toSigned 32 (rd 4 (List.drop 4 bs)) > ((if bs.length = 524 then 64 else 62 : Nat) : Int) := by
         rcases h with h | h | h | h
         · exact absurd h hl
         · exact absurd h hm
@@ -103,14 +138,18 @@ theorem parseRelMapFile_reject (bs : Bytes)
         · exact Or.inr h
       rw [if_pos this]
 
-/-- and conversely: anything accepted has the magic, a count in 0..62 and at most `count` mappings -/
+/-- and conversely: anything accepted has the magic, a count in 0..max and at most `count` mappings -/
 theorem parseRelMapFile_accept (bs : Bytes) (rm : Model.RelMapFile) (h : Model.parseRelMapFile bs = .ok (some rm)) :
-    bs.length ≥ 512 ∧ rm.magic = 0x592717 ∧ rdAt 4 0 bs = 0x592717 ∧ 0 ≤ rm.numMappings ∧ rm.numMappings ≤ 62 ∧
-    rm.numMappings = toSigned 32 (rdAt 4 4 bs) := by
+    bs.length ≥ 512 ∧ rm.magic = 0x592717 ∧ rdAt 4 0 bs = 0x592717 ∧ 0 ≤ rm.numMappings ∧
+    rm.numMappings ≤ maxCountFor bs.length ∧ rm.numMappings = toSigned 32 (rdAt 4 4 bs) := by
   unfold Model.parseRelMapFile at h
   by_cases hl : bs.length < 512
   · simp [hl] at h
   · simp (disch := omega) only [hl, if_false, uN_ok, ok_bind, pure_eq_ok] at h
+    have hge : bs.length ≥ 8 + (if bs.length = 524 then 64 else 62) * 8 + 4 := by split <;> omega
+    have hle : (if bs.length = 524 then 64 else 62 : Nat) ≤ 64 := by split <;> omega
+    unfold maxCountFor
+    generalize (if bs.length = 524 then 64 else 62 : Nat) = mx at h hge hle ⊢
     split at h
     · simp at h
     · rename_i hm
@@ -120,7 +159,7 @@ theorem parseRelMapFile_accept (bs : Bytes) (rm : Model.RelMapFile) (h : Model.p
         cases hloop : Model.relMapLoop bs (toSigned 32 (rd 4 (List.drop 4 bs))).toNat 8 with
         | error e => simp [hloop] at h
         | ok ms =>
-          simp (disch := omega) only [hloop, ok_bind, if_pos (show bs.length ≥ 504 + 4 by omega)] at h
+          simp only [hloop, ok_bind] at h
           injection h with h; injection h with h; subst h
           refine ⟨by omega, ?_, ?_, ?_, ?_, rfl⟩
           · simpa using hm
